@@ -248,7 +248,12 @@ def is_set_reported(tu, ev):
     lhs = strip_casts(ev.get("lhs"))
     if not (isinstance(lhs, list) and lhs[:1] == ["member"]):
         return None
-    field, val = reported_role(tu)
+    try:
+        field, val = reported_role(tu)
+    except AnalysisBroken:
+        if tu.is_corpus:
+            raise
+        return None      # a repository unit that never instantiates an expectation has no such member
     if erase(lhs[1]) != field:
         return None
     rhs = strip_casts(ev.get("rhs"))
